@@ -109,6 +109,17 @@ def run_case(case):
         try:
             n, pp, v = Contentline(text).parts()
             obs = (n, {k: norm(x) for k, x in pp.items()}, v)
+            # splitting is a function of the text: in-place edits of an earlier result must not reach a later split
+            for k in list(pp.keys()):
+                if isinstance(pp[k], list):
+                    pp[k].append("edited")
+                else:
+                    del pp[k]
+            pp["X-EDITED"] = "1"
+            n2, pp2, v2 = Contentline("".join(list(text))).parts()
+            obs2 = (n2, {k: norm(x) for k, x in pp2.items()}, v2)
+            if obs2 != obs:
+                fails.append(fail("line:second-split-sees-edits-of-the-first-result", case, obs, obs2))
         except ValueError:
             obs = ("rejected",)
         want = ("X-A", intended, "v")
